@@ -82,6 +82,8 @@ def build_sandbox(root, rng, placement, opts_on):
         os.makedirs(os.path.join(pd, "shared"))
         open(os.path.join(pd, "shared", "s.css"), "w").write("body{}\n")
         open(os.path.join(pd, "notes.txt"), "w").write("notes\n")
+        open(os.path.join(pd, "extra.md"), "w").write("title: Extra\n\ngenerated from markdown\n")
+        open(os.path.join(pd, "extra.html"), "w").write("<html>the user's own file with the name of a generated page</html>\n")
         open(os.path.join(pd, "sub", "index.md"), "w").write("title: Sub\ncopy_subdir: assets\n\ntext\n")
         open(os.path.join(pd, "sub", "assets", "i.png"), "wb").write(b"PNG1")
         if opts_on.get("hostile_inputs"):
@@ -137,6 +139,8 @@ def build_sandbox(root, rng, placement, opts_on):
         os.makedirs(os.path.join(out, "page", "old"))
         open(os.path.join(out, "page", "old", "stale.html"), "w").write("<html>stale</html>")
         open(os.path.join(out, "random.f90"), "w").write("module stale_mod\nend module stale_mod\n")
+        os.makedirs(out + ".old")
+        open(os.path.join(out + ".old", "keep.txt"), "w").write("an older copy the user keeps\n")
         opts["output_dir"] = "./doc"
         allowed.append(out)
     elif placement == "equals_src":
@@ -165,6 +169,17 @@ def build_sandbox(root, rng, placement, opts_on):
         elif g == "absolute":
             opts["graph_dir"] = os.path.join(root, "abs_graphs")
             allowed.append(os.path.join(root, "abs_graphs"))
+        elif g == "contains_sources" and not refusal:
+            # nothing forbids a graph directory that holds other things: they must be left alone
+            os.makedirs(os.path.join(proj, "code", "src3"), exist_ok=True)
+            open(os.path.join(proj, "code", "src3", "m3.f90"), "w").write("module cmod_g\nend module cmod_g\n")
+            open(os.path.join(proj, "code", "NOTES.txt"), "w").write("notes\n")
+            sd = opts["src_dir"] if isinstance(opts["src_dir"], list) else [opts["src_dir"]]
+            opts["src_dir"] = sd + ["./code/src3"]
+            opts["graph_dir"] = "./code"
+            allowed.append(os.path.join(proj, "code"))
+            opts["_preexisting_in_graph_dir"] = True
+    pre_g = opts.pop("_preexisting_in_graph_dir", False)
     cli = []
     if opts_on.get("via_cli"):
         # the same directory given with -o on the command line: relative to the working directory
@@ -172,6 +187,7 @@ def build_sandbox(root, rng, placement, opts_on):
         cli = ["-o", val if os.path.isabs(val) else os.path.join(os.path.relpath(proj, opts_on["cwd"]), val)]
     site.write_project_file(proj, opts, body="Front page.\n")
     opts["cli"] = cli
+    opts["_graph_dir_with_content"] = os.path.join(proj, "code") if pre_g else None
     return proj, opts, allowed, refusal
 
 
@@ -231,19 +247,26 @@ def case(arg):
         if isinstance(mode, tuple) and len(mode) > 2:
             opts_on = {k: True for k in opts_on}
         opts_on["hostile_inputs"] = rng.random() < 0.4
-        opts_on["graph_dir"] = rng.choice([None, "sibling", "in_output", "absolute"])
+        opts_on["graph_dir"] = [None, "sibling", "in_output", "absolute", "contains_sources"][seed % 5]
+        if opts_on["graph_dir"] and rng.random() < 0.8:
+            opts_on["graph"] = True
         cwd = rng.choice([os.path.join(root, "proj"), os.path.join(root, "work")])
         opts_on["cwd"] = cwd
         opts_on["via_cli"] = rng.random() < 0.3 and not (opts_on["graph_dir"] == "in_output")
         proj, opts, allowed, refusal = build_sandbox(root, rng, placement, opts_on)
         allowed_real = [os.path.realpath(a) for a in allowed]
-        before = snapshot(root, allowed)
+        gpre = opts.pop("_graph_dir_with_content", None)
+        excl = [a for a in allowed if a != gpre]  # what was in the graph directory before the run must stay as it was
+        before = snapshot(root, excl)
         log = os.path.join(logdir, "audit.jsonl")
         fail_at = mode[1] if isinstance(mode, tuple) else 0
         fail_match = mode[2] if isinstance(mode, tuple) and len(mode) > 2 else ""
         strace_out = os.path.join(logdir, "strace.txt") if mode == "strace" else None
         rc, out = run_ford(proj, cwd, log, fail_at=fail_at, fail_root=root, strace_out=strace_out, fail_match=fail_match, cli=opts["cli"])
-        after = snapshot(root, allowed)
+        after = snapshot(root, excl)
+        if gpre:
+            gp = os.path.relpath(gpre, root) + os.sep
+            after = {k: v for k, v in after.items() if not (k.startswith(gp) and k not in before)}  # FORD may add its graph files
         events = read_log(log)
         viol = []
         cfg = {"placement": placement, "output_dir_from": "command line" if opts["cli"] else "project file", "mode": mode if isinstance(mode, str) else "failpoint", "cwd_is_project_dir": cwd == proj,
@@ -282,8 +305,8 @@ def case(arg):
                     continue
                 if e["e"] in SRC_FIRST and p == e.get("p") and e.get("p2") is not None:
                     continue  # source side of a copy
-                if e.get("dir_fd"):
-                    continue  # relative to a directory fd opened by rmtree: covered by the shutil.rmtree event and the snapshot
+                if e.get("dir_fd") and not os.path.isabs(p):
+                    continue  # could not be resolved: covered by the shutil.rmtree event and the snapshot
                 if e["e"] == "os.mkdir" and os.path.realpath(os.path.join(e.get("cwd", cwd), p)) in ancestors:
                     continue
                 if outside(p, e.get("cwd", cwd), allowed_real, [os.path.realpath(logdir)]):
@@ -361,8 +384,9 @@ def main():
         for k in range(1, 260 if thorough else 200, step if pl == "sibling" else (3 if thorough else 17)):
             i += 1
             args.append((base + 7000 + (PLACEMENTS.index(pl) * 1000), pl, ("fail", k)))
-    for pl in (PLACEMENTS if thorough else ["sibling", "absolute"]):
-        for text in ("assets", "shared", "media", "custom.css", "fav.png", "mj.js", "/src/", "search", "graph", "modules.json", "/page/", "index.html", "sourcefile", "/css/", "/js/", "tipuesearch"):
+    for pl in (PLACEMENTS if thorough else ["sibling", "absolute", "stale_output"]):
+        for text in ("assets", "shared", "media", "custom.css", "fav.png", "mj.js", "/src/", "search", "graph", "modules.json", "/page/", "index.html", "sourcefile", "/css/", "/js/", "tipuesearch",
+                     "stale", "random.f90", "extra.html"):
             for k in ((1, 2, 5) if thorough else (1, 2)):
                 args.append((base + 8000 + PLACEMENTS.index(pl), pl, ("fail", k, text)))
     if thorough:
